@@ -431,7 +431,13 @@ func sampleBatch(c *fw.Ctx, engine string, keys []string, more []bt.Op, stored .
 	w := newBTWorld(c, engine)
 	defer w.Close()
 	for i := range setup {
-		if m, _ := w.Step(&setup[i], true); m != "" {
+		if m, cl := w.Step(&setup[i], true); m != "" {
+			// the table cannot even be built as the model says: that is a finding of its own, not a reason to skip
+			sc := seqCase{Engine: engine, Ops: setup[:i+1]}
+			c.Violate(fmt.Sprintf("C03:%s:%s:%s", engine, cl, c03Tag(&setup[i])), "while building the table for SampleRowKeys: "+m+"\n  sequence: "+bt.OpsString(setup[:i+1]), sc, func() string {
+				s, _ := replaySeq(c, "C03", sc, c03Tag)
+				return s
+			})
 			return
 		}
 	}
